@@ -106,3 +106,86 @@ bad = check_period(em.parser, b, a, params) + check_period(em.parser, a, None, p
 if bad:
     print('witness does not satisfy the emitted equations:', bad[:5]); sys.exit(0)
 '''
+
+
+# ---------------------------------------------------------------------------------------------------------------
+# equivalence of two emitted systems (C08 order, C18 renaming/embedding, C05 intended form)
+
+def _exo_values(parser):
+    out = {}
+    for v, e in parser.Exogenous:
+        try:
+            val = eval(e, {'__builtins__': {}}, {})
+            out[v] = [float(x) for x in val] if isinstance(val, (list, tuple)) else float(val)
+        except Exception:
+            out[v] = 'text:' + ''.join(e.split())
+    return out
+
+
+def compare_systems(pa, pb, params, mapb=None, restrict=None, timeout_ms=60000):
+    """Equivalence of two systems given as real-parser views.  mapb maps B's variable names to A's (renaming /
+    prefixing).  restrict: optional predicate on A-names selecting the sub-economy compared.
+    Returns (obs, D): obs = list of dict(kind, what, verdict, [cex]) - structural mismatches are verdict 'sat'."""
+    from vf.eqsmt import to_z3
+    mapb = mapb or (lambda n: n)
+    obs = []
+    D = Decider(timeout_ms=timeout_ms)
+    keep = restrict or (lambda n: True)
+    A_endo = {v: e for v, e in list(pa.Endogenous) + list(pa.Decoration) if keep(v)}
+    B_endo = {mapb(v): e for v, e in list(pb.Endogenous) + list(pb.Decoration)}
+    A_lag = {v: s.strip() for v, s in pa.Lagged if keep(v)}
+    B_lag = {mapb(v): mapb(s.strip()) for v, s in pb.Lagged}
+    A_exo = {v: x for v, x in _exo_values(pa).items() if keep(v) and v != 'k'}
+    B_exo = {mapb(v): x for v, x in _exo_values(pb).items() if v != 'k'}
+    A_ic = {v: float(x) for v, x in pa.InitialConditions.items() if keep(v)}
+    B_ic = {mapb(v): float(x) for v, x in pb.InitialConditions.items()}
+    if restrict is not None:
+        B_endo = {v: e for v, e in B_endo.items()}
+    for kind, a, b in (('variables', set(A_endo), set(B_endo)), ('lagged', A_lag, B_lag), ('exogenous', A_exo, B_exo),
+                       ('initial-conditions', A_ic, B_ic)):
+        if a != b:
+            if isinstance(a, set):
+                diff = {'only_first': sorted(a - b)[:8], 'only_second': sorted(b - a)[:8]}
+            else:
+                diff = {'only_first': sorted(set(a) - set(b))[:8], 'only_second': sorted(set(b) - set(a))[:8],
+                        'different': sorted(k for k in set(a) & set(b) if a[k] != b[k])[:8]}
+            obs.append({'kind': 'same-' + kind, 'what': 'same %s in both builds' % kind, 'verdict': 'sat', 'structural': diff})
+        else:
+            obs.append({'kind': 'same-' + kind, 'what': 'same %s in both builds (%d)' % (kind, len(a)), 'verdict': 'unsat'})
+    common = sorted(set(A_endo) & set(B_endo))
+    VV = {}
+
+    def var(n):
+        if n not in VV:
+            VV[n] = z3.Real(n)
+        return VV[n]
+    rhsA, rhsB = {}, {}
+    try:
+        for v in common:
+            if v in params:
+                continue
+            rhsA[v] = to_z3(A_endo[v], var)
+            rhsB[v] = to_z3(B_endo[v], lambda n: var(mapb(n)))
+    except Untranslatable as e:
+        obs.append({'kind': 'equation-equivalence', 'what': 'untranslatable: %s' % e, 'verdict': 'unknown'})
+        return obs, D
+    differing = []
+    for v in rhsA:
+        if z3.eq(z3.simplify(rhsA[v] - rhsB[v]), z3.RealVal(0)):
+            continue
+        r, _ = D.decide([rhsA[v] != rhsB[v]], ladder=False, timeout_ms=10000)
+        if r != 'unsat':
+            differing.append(v)
+    obs.append({'kind': 'per-equation-identical', 'what': '%d of %d equations identical as functions' % (len(rhsA) - len(differing), len(rhsA)),
+                'verdict': 'unsat'})
+    if differing:
+        consA = [var(v) == rhsA[v] for v in rhsA]
+        consB = [var(v) == rhsB[v] for v in rhsB]
+        for v in differing:
+            for side, cons, other, tag in (('first |= second', consA, rhsB, 'B'), ('second |= first', consB, rhsA, 'A')):
+                r, m = D.decide(cons + [var(v) != other[v]])
+                ob = {'kind': 'system-entailment', 'what': '%s: equation of %s' % (side, v), 'verdict': r, 'var': v, 'side': tag}
+                if r == 'sat':
+                    ob['cex'] = {n: str(val_fraction(m.eval(zv, model_completion=True))) for n, zv in VV.items()}
+                obs.append(ob)
+    return obs, D
